@@ -78,7 +78,9 @@ class ModelFunctionBase(FileIOMixin, object):
                         _symbol_i = sp.symbols(_symbol_i_str)
                         _custom_defaults[_symbol_i_str] = float(_values_str)
                         _symbols[_i] = _symbol_i
-                _symbolic_function = sp.sympify(_function_string)
+                # resolve the declared names to the declared symbols: without `locals` names such as E, I, N, S, Q, beta, gamma
+                # are taken from SymPy's namespace (Euler's number, imaginary unit, functions) instead of being parameters
+                _symbolic_function = sp.sympify(_function_string, locals={str(_s): _s for _s in _symbols})
                 self._model_function_handle = sp.lambdify(_symbols, _symbolic_function)
                 _latex_string = sp.latex(_symbolic_function)
                 _latex_string = _latex_string.replace(r"{", r"{{")
